@@ -117,21 +117,6 @@ Proof.
   destruct (persisted n (dk s)); reflexivity.
 Qed.
 
-(* which scanned files a TTL/TTI pass deletes *)
-Definition ttl_due (tti ttl nw : Z) (inmap : bool) (f : file) : bool :=
-  negb (is_persisted f) && ready tti ttl nw (seen inmap nw f).
-
-(* the file m after a pass over scan *)
-Definition ttl_after (tti ttl : Z) (scan : list N) (s : st) (m : N) : option file :=
-  match aget m (dk s) with
-  | None => None
-  | Some f =>
-      if memb m scan
-      then (if ttl_due tti ttl (now s) (amem m (fm s)) f then None
-            else Some (seen (amem m (fm s)) (now s) f))
-      else Some f
-  end.
-
 Lemma roomy_shrink : forall s s', roomy_s s -> cap s' = cap s ->
   (length (dk s') <= length (dk s))%nat -> roomy_s s'.
 Proof. unfold roomy_s. intros s s' [H|H] Hc Hl; rewrite Hc; [left; auto | right; lia]. Qed.
